@@ -166,6 +166,9 @@ impl Property for C05 {
         if rng.chance(1, 25) {
             return late_type(rng);
         }
+        if rng.chance(1, 30) {
+            return generic_tuple(rng);
+        }
         let mut h = crate::rng::Fnv::default();
         let nchildren = rng.usize(4);
         let mut children: Vec<Child> = Vec::new();
@@ -440,7 +443,7 @@ impl Property for C05 {
         }
     }
     fn monitor(&self, scn: &Scenario) -> Box<dyn Monitor + Send> {
-        if scn.expect.get("late_type").is_some() {
+        if scn.expect.get("late_type").is_some() || scn.expect.get("generic_tuple").is_some() {
             return Box::new(crate::run::NoMonitor);
         }
         let e: Expect = serde_json::from_value(scn.expect.clone()).expect("c05 expect");
@@ -448,6 +451,16 @@ impl Property for C05 {
     }
     fn judge(&self, scn: &Scenario, _refdata: Option<&RefData>, r: &RunResult) -> Vec<Violation> {
         let mut v = Vec::new();
+        if let Some(want) = scn.expect.get("generic_tuple").and_then(|x| x.as_str()) {
+            let swapped = scn.expect.get("swapped").and_then(|x| x.as_str()).unwrap_or("");
+            match r.outs.last() {
+                Some(crate::client::Out::Value(s)) if s == want => {}
+                // the first-written receive took the tuple of the other element type: the known finding
+                Some(crate::client::Out::Value(s)) if s == swapped => v.push(Violation::new("C05", "yield", "generic-built-tuple-taken-by-receive-of-another-type", format!("the receiver yielded {s}, expected {want}: `!#['bin]` took a tuple holding an int because the tuple was built inside a generic function"), r.steps)),
+                other => v.push(Violation::new("C05", "yield", "typed-receive-took-wrong-message", format!("the receiver yielded {:?}, expected {want}", other), r.steps)),
+            }
+            return v;
+        }
         if let Some(want) = scn.expect.get("late_type").and_then(|x| x.as_str()) {
             match r.outs.last() {
                 Some(crate::client::Out::Value(s)) if s == want => {}
@@ -455,6 +468,32 @@ impl Property for C05 {
             }
         }
         v
+    }
+}
+
+/// Two messages of one tuple shape and different element types, built by ONE generic function
+/// (`wrap = #<'t>'t { [~] }`), sent to a receiver that first takes a `['bin]`, then an `['int]`: "a
+/// receive source yields the earliest mailbox message of its type", whatever built the message.
+fn generic_tuple(rng: &mut Rng) -> Scenario {
+    let n = rng.range(1, 90);
+    let direct = rng.chance(1, 3);
+    let mut h = crate::rng::Fnv::default();
+    h.u64(0x6e7e);
+    h.u64(direct as u64);
+    let (m1, m2) = if direct { (format!("[{n}] p"), "[0x00] p".to_string()) } else { (format!("{n} wrap p"), "0x00 wrap p".to_string()) };
+    let src = format!("wrap = #<'t>'t {{ [~] }}, p = @#{{ x = !#['bin], y = !#['int], [x, y] }}, {m1}, {m2}, !p");
+    Scenario {
+        family: if direct { "c05-typed-tuples".into() } else { "c05-generic-tuple".into() },
+        ops: vec![ClientOp::Line { session: 0, src }],
+        modules: vec![],
+        files: Default::default(),
+        timing: true,
+        io: false,
+        fixed_faults: Default::default(),
+        expect: serde_json::json!({ "generic_tuple": format!("[[0x00], [{n}]]"), "swapped": format!("[[{n}], [0x00]]") }),
+        shape: h.0,
+        est_len: 100,
+        min_quantum: 0,
     }
 }
 
